@@ -13,8 +13,14 @@ PROP_FILE = "Properties/C05.v"
 TRUSTED = [
     "translator/c05.py: what it reads from pyxel/observation/{misc,observation}.py is believed (name fallback and third "
     "naming stage, enabled_steps filters, short(), CustomMode.build guards and column selection, convert_custom_data "
-    "column addressing and scalar test, the dimensions _add_custom_parameters gives a vector parameter); it fails closed "
-    "on any other shape",
+    "column addressing and scalar test, the dimensions _add_custom_parameters gives a vector parameter, whether "
+    "_get_parameter_types rebuilds its dict); it fails closed on any other shape",
+    "that Observation.parameter_types is the ONLY state the run path keeps between two runs of one object is a syntactic "
+    "net of the translator (declared fields of the mode classes, attributes set by the constructors, no write to an "
+    "attribute / item of self, cls, an argument or a module-level name, no setattr / __dict__ / vars, no memoisation "
+    "decorator or import, no module- or class-level variable, no mutable default) over observation/{misc,observation,"
+    "observation_dask,parameter_values}.py, evaluator.py and the key access of pipelines/processor.py; state hidden "
+    "behind an alias or inside a called library is only found by the history leg (testing)",
     "the loops of the three modes (itertools.product / the sequential double loop / the column cursor) and of the dask "
     "path (create_params, run_pipelines_with_dask) are hand-written in Model/ParamSpace.v and tied to the code only by "
     "the correspondence leg (testing)",
@@ -522,6 +528,42 @@ def gen_history(r, mode=None, lay=None, dask=None, edits=None, nruns=None, fine=
     return dict(history=steps)
 
 
+def enum_histories(r):
+    """Thorough tier: exhaustive small scope of two-run histories -- every ordered pair of distinct configurations out
+    of {sweep a | a, b | b, a | a and b disabled} x {two sets of configured values}, sequential and product mode, both
+    paths; the second configuration is reached by editing the object that ran the first."""
+    import copy
+    import itertools
+    out = []
+    base = gen_case(r, "product", "L3", nparams=1, neg=False, fine=False, dask=False)
+    idx = {s["key"]: i for i, s in enumerate(base["slots"])}
+    _, meta = layout("L3")
+    ka, kb = P1.format(m="m1") + "a", P2.format(m="m2") + "a"
+
+    def conf(mode, dask, params, defaults):
+        c = copy.deepcopy(base)
+        c.update(mode=mode, dask=dask, inherit=True, table=[], range=None,
+                 params=[dict(p, slot=idx[p["key"]]) for p in params])
+        for k, v in defaults.items():
+            c["slots"][idx[k]]["default"] = v
+            c["probes"][meta[idx[k]]["probe"]]["args"][meta[idx[k]]["arg"]] = v
+        return c
+
+    pa = dict(kind="lit", key=ka, values=[24, 8], enabled=True)
+    pb = dict(kind="lit", key=kb, values=[40], enabled=True)
+    variants = [[pa], [pa, pb], [pb, pa], [pa, dict(pb, enabled=False)]]
+    defaults = [{ka: 5, kb: 50}, {ka: 7, kb: 56}]
+    for mode in ("sequential", "product"):
+        for dask in (False, True):
+            confs = [conf(mode, dask, v, d) for v in variants for d in defaults]
+            for i, j in itertools.permutations(range(len(confs)), 2):
+                a, b = copy.deepcopy(confs[i]), copy.deepcopy(confs[j])
+                a["edit"] = "first"
+                b.update(edit="enum", edit_style="replace", objects="same")
+                out.append(dict(history=[a, b]))
+    return out
+
+
 def gen_histories(ctx: Ctx, budget: int):
     r = ctx.rng("histories")
     out = load_corpus(histories=True)
@@ -539,7 +581,9 @@ def gen_histories(ctx: Ctx, budget: int):
         out.append(gen_history(r, "sequential", "L3", dask=dask, edits=["nothing", "default"], nruns=3))
     while len(out) < budget:
         out.append(gen_history(r))
-    return out[:max(budget, 0)] if budget < len(out) else out
+    extra = [] if ctx.quick else enum_histories(ctx.rng("enum_histories"))
+    ctx.cov["exhaustive_small_scope_histories"] = len(extra)
+    return out + extra
 
 
 
@@ -1061,7 +1105,7 @@ def shrink_history(ctx: Ctx, steps, rounds=6):
 def history_leg(ctx: Ctx, hists, tag="h"):
     """Run every history on one object; judge every run, inside Coq, against the configuration at that time
     (hist_violations) and against the model of the object as coded (hist_mismatches)."""
-    obs = core.run_driver(ctx, "c05", hists, workers=8, chunk=8)
+    obs = core.run_driver(ctx, "c05", hists, workers=8, chunk=max(6, min(20, (len(hists) + 7) // 8)))
     again = [i for i, o in enumerate(obs) if "crash" in o]
     if again and len(again) < len(hists):
         ctx.log(f"re-running {len(again)} histor(y/ies) whose worker was killed")
@@ -1138,6 +1182,10 @@ def run(ctx: Ctx):
         "product/custom requests have distinct enabled keys (a repeated key is only meaningful in sequential mode)",
         "on the dask path the executed runs are compared as a multiset and ONE further execution of a requested run is "
         "allowed (run_pipelines_with_dask runs the first cell once more to learn the output shape)",
+        "histories: 2..3 runs of one Observation object; between two runs ONE edit through public attributes (configured "
+        "value of a detector field / model argument on the same or on another detector+pipeline, parameter list replaced / "
+        "edited in place / mode object rebuilt, custom table, with_dask, product<->sequential); custom-mode histories only "
+        "hold tables that fit their parameters (CustomMode.build validates at construction, not at run time)",
     ]
     try:
         gen = {"Gen_C05.v": tr.translate(ctx.repo)}
@@ -1147,9 +1195,15 @@ def run(ctx: Ctx):
         gen = {"Gen_C05.v": tr.FALLBACK}
     ctx.cov["src_cfg"] = gen["Gen_C05.v"].strip().splitlines()[-1]
     set_flags(gen["Gen_C05.v"])
+    import time
+    t0 = time.time()
+    phases = ctx.cov.setdefault("phase_seconds", {})
     core.proof_leg(ctx, gen, PROP_FILE)
-    cases = gen_cases(ctx, ctx.budget(400, 1500), ctx.budget(160, 600))
+    phases["proof_leg"] = round(time.time() - t0, 1)
+    t0 = time.time()
+    cases = gen_cases(ctx, ctx.budget(340, 1500), ctx.budget(160, 600))
     mism, viol, pairs = correspondence(ctx, cases)
+    phases["single_runs"] = round(time.time() - t0, 1)
     distinct = {canon(c) for c, _ in pairs if nontrivial(c)}
     ctx.cov["distinct_nontrivial"] = len(distinct)
     ctx.cov["rule"] = ("non-trivial = at least two enabled parameters with lists of different lengths (product, "
@@ -1167,8 +1221,10 @@ def run(ctx: Ctx):
         ctx.dist("spec_violation", f"{v.clause}/{c['mode']}{'/dask' if c.get('dask') else ''}")
         vs.append(v)
     # ---- histories: ONE Observation object run, edited in place, run again (2..3 runs)
-    hists = gen_histories(ctx, ctx.budget(90, 320))
+    t0 = time.time()
+    hists = gen_histories(ctx, ctx.budget(84, 300))
     hmism, hviol, hp = history_leg(ctx, hists)
+    phases["histories"] = round(time.time() - t0, 1)
     ctx.cov["histories"] = len(hp)
     ctx.cov["history_distinct_nontrivial"] = len({json.dumps([canon(c) for c, _ in pairs]) for _, pairs in hp
                                                    if len(pairs) >= 2 and canon(pairs[0][0]) != canon(pairs[-1][0])})
@@ -1305,11 +1361,17 @@ META = dict(
         "with its own data, nothing else is stored, and the merge fails exactly on equal labels with different data; for "
         "each mode the modelled observation as a whole runs and maps each run's labels to that run's data. Dask path: for "
         "every reordering of the levels the product cells are the requested runs, each once, each found under the label "
-        "made of exactly its values; custom cells take the requested columns; sequential mode is refuted beyond one "
-        "parameter and duplicate values are refused (open findings, full statements kept visible). That the hand-written "
+        "made of exactly its values; custom cells take the requested columns; whether sequential rows are the requested "
+        "runs and a repeated value is accepted is decided by what the source does (both repaired under C07; full "
+        "statements kept visible). Histories on ONE "
+        "object: for every op sequence Run | Edit (configured value, parameter list, custom table, with_dask, mode) and "
+        "every past of the object, run k does exactly what a new object configured like the object at that moment does "
+        "(C05_history, by induction; the object's only state, Observation.parameter_types, is rebuilt on every run -- read "
+        "from the source; a fail-closed syntactic net excludes any other state on the run path). That the hand-written "
         "loops of the model are what the code does, and that the returned DataTree stores each run's data under that "
         "run's labels, is established by correspondence (testing): real observations on both paths with a probe model "
-        "that records what each run received; run list and complete label->data map compared and judged inside Coq."),
+        "that records what each run received, single runs and 2..3-run histories on one object edited in place; run list "
+        "and complete label->data map of every run compared and judged inside Coq against the configuration at that time."),
     level_note=(
         "Trusted: Coq kernel + vm_compute; the translator (declarative parts only, fail-closed) and the hand-written model "
         "of the loops; the harness, driver and probe; itertools/zip/dict/pandas/xarray/dask semantics as modelled. The "
